@@ -374,6 +374,11 @@ func judgeRace(report string) (bool, string) {
 			if strings.Contains(ls[i], "github.com/tigerwill90/fox.") {
 				return strings.TrimSpace(ls[i])
 			}
+			// a fox function inlined into a harness closure (iterator bodies) carries the closure's name; its source
+			// position still lies in the instrumented copy of the library
+			if i+1 < len(ls) && strings.Contains(ls[i+1], "/.build/src-") && strings.Contains(ls[i+1], "/fox/") {
+				return strings.TrimSpace(ls[i]) + " [" + strings.TrimSpace(ls[i+1]) + "]"
+			}
 		}
 		return ""
 	}
